@@ -73,7 +73,7 @@ def main():
     sc = vc.scratch(PROP)
     R = mcheck.MRun(vc.REPO, sc, 'codegen', max_depth=80, max_paths=80000)
     cands = []
-    graphs = [(2, 2, 1), (3, 2, 1)] if tier == 'quick' else [(2, 2, 2), (3, 2, 1), (2, 3, 1), (3, 3, 1), (4, 2, 1)]
+    graphs = [(2, 2, 1), (3, 2, 1)] if tier == 'quick' else [(2, 2, 2), (3, 2, 1), (2, 3, 1)]     # (3,3,1) and (4,2,1) exceed 80 000 paths (measured)
     for N, Kf, ql in graphs:
         cands += K.k_input_recursion(R, N, Kf, ql)
     frs = [(2, 2)] if tier == 'quick' else [(2, 2), (3, 2), (2, 3)]
